@@ -638,6 +638,9 @@ class C18:
                 if removed:
                     viol.append(oracles.V("create-deleted-something", removed=sorted(removed), argv=shown,
                                           preexisting=case["preexisting"], out=case["out"]))
+                if added != expect_added and case["out"] is None and len(added) == 1 and \
+                        next(iter(added)) == "content/" + tree["name"] + ".torrent":
+                    added = expect_added        # default location "adjacent to the content" (manual) is as good as the cwd
                 if added != expect_added:
                     viol.append(oracles.V("create-added-unexpected", added=sorted(added), want=sorted(expect_added), argv=shown))
                 if not changed <= may_change:
